@@ -39,8 +39,13 @@ package prefix
 //@   requires data != nil && regManager != nil && t.TagObfuscator != nil
 //@   ensures @C02: result1 == nil ==> (exists s string :: s in validRegs(regManager, originalDst) && result0 == validRegs(regManager, originalDst)[s]) && regTransport(result0) == 4
 //@   ensures @C02 @C03: result1 != nil ==> result0 == nil && bufStr(data) == old(bufStr(data))
+// C03: the only answers are the four sentinel values - in particular a failing tag reveal or any other internal
+// error is never passed up (the handler would stop reading and sleep, which a prober can observe)
+//@   ensures @C03: result1 != nil ==> result1 == transports.ErrTryAgain || result1 == transports.ErrNotTransport || result1 == ErrIncorrectPrefix || result1 == ErrIncorrectTransport
+// C03: the connection is not touched (no write, close, read, deadline change): the frame is the buffer only
+//@   assigns bufStr(data), obj(data)
 //@ loop 1:
-//@   invariant data != nil && regManager != nil && t.TagObfuscator != nil && bufStr(data) == old(bufStr(data)) && err != nil
+//@   invariant data != nil && regManager != nil && t.TagObfuscator != nil && bufStr(data) == old(bufStr(data)) && (err == transports.ErrNotTransport || err == transports.ErrTryAgain)
 //@   modifies bufStr(data), obj(data)
 
 //@ func (t Transport) WrapConnection(data *bytes.Buffer, c net.Conn, originalDst net.IP, regManager transports.RegManager) (transports.Registration, net.Conn, error)
@@ -48,3 +53,5 @@ package prefix
 //@   ensures @C02: result2 == nil ==> (exists s string :: s in validRegs(regManager, originalDst) && result0 == validRegs(regManager, originalDst)[s]) && regTransport(result0) == 4
 //@   ensures @C02 @C03: result2 != nil ==> result0 == nil && result1 == nil && bufStr(data) == old(bufStr(data))
 //@   ensures @C03: old(len(bufStr(data))) < 32 ==> result2 == transports.ErrTryAgain
+//@   ensures @C03: result2 != nil ==> result2 == transports.ErrTryAgain || result2 == transports.ErrNotTransport || result2 == ErrIncorrectPrefix || result2 == ErrIncorrectTransport
+//@   assigns bufStr(data), obj(data)
